@@ -35,6 +35,8 @@ def tasks(tier, seed, selftest=False):
         for strat in (0, 1):
             add("U2", p, (40 if q else 1200), strat)
             add("D3", p, (25 if q else 1200), strat)
+    for strat in (0, 1):
+        add("P:SW2+SW2", (), 30 if q else 900, strat)
     if q:
         for strat in (0, 1):
             add("S1C2", (), 20, strat)
